@@ -430,3 +430,118 @@ def r02_9(ctx, rr):
     for g in SIBLING_GROUPS:
         if getattr(ctx, "prop", None) in g["props"] or getattr(ctx, "prop", None) is None:
             compare_group(ctx, rr, g, tab.get(g["name"], []))
+
+
+@rule("R02.10", props=["C02"], floor=1, title="Select9::new: the word loop that records explicit positions stops at the last word of the bit vector (the end of the last inventory entry is a sentinel beyond it)")
+def r02_10(ctx, rr):
+    """The inventory is closed by the sentinel ((num_words + 3) & !3) * 64. A loop bounded by the word index of
+    `inventory[i + 1]` alone reads bits[num_words] for the last entry whenever num_words is not a multiple of 4."""
+    F = ctx.F()
+    nb = F.one(r"^rank_sel::select9::Select9::<rank_sel::rank9::Rank9<B, C>>::new$")
+    p1 = nb.params[0]["id"]
+    hits = []
+
+    def on_node(W, n, K):
+        # bits[word_idx] where bits is (a field of) the parameter, inside a loop, with a running index
+        if n.get("k") == "Index" and W.debug_depth == 0:
+            base = W.T.term(n["e"])
+            if mentions(base, lambda x: x[0] == "field" and x[2] == "bits") and n["i"].get("k") == "Path" and n["i"].get("res") == "local":
+                lid = n["i"]["id"]
+                hits.append((n, lid))
+    Wk = Walker(F, nb, on_node=on_node)
+    Wk.run()
+    # the running index is advanced by one and compared with an end: that end must be <= the number of words
+    num_words = None
+    T = Termizer(F, nb)
+    checked = 0
+    pm = {id(n): ps for n, ps in walk_with_parents(nb.body)}
+    for n, lid in hits:
+        incs = [x for x in walk(nb.body) if x.get("k") == "AssignOp" and x["op"] == "+=" and x["l"].get("k") == "Path" and x["l"].get("id") == lid]
+        if not incs:
+            continue
+        # the test that follows the increment: `if word_idx == end { break }`
+        tests = [x for x in walk(nb.body) if x.get("k") == "If" and x["c"].get("k") == "Binary" and x["c"]["op"] in ("==", ">=") and x["c"]["l"].get("k") == "Path" and x["c"]["l"].get("id") == lid and any(y.get("k") == "Break" for y in walk(x["th"]))]
+        if not tests:
+            continue
+        checked += 1
+        end = tests[0]["c"]["r"]
+        # resolve the end to its defining expression
+        et = None
+        if end.get("k") == "Path" and end.get("res") == "local":
+            lets = [x for x in walk(nb.body) if x.get("k") == "LetStmt" and x["pat"].get("k") == "PBind" and x["pat"]["id"] == end["id"] and "init" in x]
+            if lets:
+                et = lets[0]["init"]
+        et = et if et is not None else end
+        # clamped: a `.min(<number of words>)` / `min(.., <number of words>)` at the top of the expression
+        txt_ok = False
+        if et.get("k") == "MethodCall" and et["name"] == "min":
+            args = [et["recv"]] + et["args"]
+            for a in args:
+                ta = T.term(a)
+                # number of words: a local defined as ceil(len / 64), or len of the backend
+                if a.get("k") == "Path" and a.get("res") == "local":
+                    ls = [x for x in walk(nb.body) if x.get("k") == "LetStmt" and x["pat"].get("k") == "PBind" and x["pat"]["id"] == a["id"] and "init" in x]
+                    if ls:
+                        ta = T.term(ls[0]["init"])
+                if (ta[0] == "call" and ta[1].endswith("div_ceil") and ta[2][1] in (("int", 64), ("def", "bits::bit_vec::BITS"))) or (ta[0] == "call" and ta[1].endswith("len") and mentions(ta, lambda x: x[0] == "field" and x[2] == "bits")):
+                    txt_ok = True
+        rr.instances += 1
+        rr.ob(txt_ok, key="Select9::new:word-loop-bounded-by-num-words")
+        if not txt_ok:
+            rr.violate("Select9::new:word-loop-bounded-by-num-words", "Select9::new reads `%s` in a loop that ends at `%s`, which is not clamped to the number of words of the bit vector: for the last inventory entry the end is the sentinel ((num_words + 3) & !3) * 64 and the loop reads one word past the end when num_words is not a multiple of 4 (sparse vectors)" % (show(F, n)[:60], show(F, et)[:80]), F.loc(n))
+    if checked == 0:
+        raise AnchorMissing("Select9::new: no indexed read of the bit vector in a counted word loop")
+
+
+@rule("R02.11", props=["C02"], floor=2, title="SelectSmall/SelectZeroSmall: the table of first inventory entries per superblock is closed by the number of inventory entries")
+def r02_11(ctx, rr):
+    """`inventory_begin[k]` is an index into `inventory`; the closing sentinel must be `inventory.len()`, larger
+    than every valid index. Any other quantity (the number of words) is smaller than some valid indices as soon
+    as there is more than one inventory entry per word."""
+    F = ctx.F()
+    news = [b for b in F.fns() if b.name == "_new" and b.file.endswith(("rank_sel/select_small.rs", "rank_sel/select_zero_small.rs"))]
+    if len(news) < 2:
+        raise AnchorMissing("expected the _new constructors of SelectSmall and SelectZeroSmall")
+    seen = set()
+    for b in news:
+        fkey = b.file
+        # the two locals that become the fields inventory / inventory_begin
+        ids = {}
+        for n in walk(b.body):
+            if n.get("k") == "Struct" and range_of(F, n) is None:
+                for f in n["fields"]:
+                    if f["name"] in ("inventory", "inventory_begin"):
+                        ps = [x for x in walk(f["e"]) if x.get("k") == "Path" and x.get("res") == "local"]
+                        if ps:
+                            ids[f["name"]] = ps[0]["id"]
+        # follow `let x = y.into_boxed_slice()` style rebinding back to the growable vector
+        def origin(i):
+            for _ in range(4):
+                ls = [x for x in walk(b.body) if x.get("k") == "LetStmt" and x["pat"].get("k") == "PBind" and x["pat"]["id"] == i and "init" in x]
+                if not ls:
+                    return i
+                ps = [x for x in walk(ls[0]["init"]) if x.get("k") == "Path" and x.get("res") == "local"]
+                if not ps or ls[0]["init"].get("k") not in ("MethodCall",) or ls[0]["init"]["name"] not in ("into_boxed_slice", "into"):
+                    return i
+                i = ps[0]["id"]
+            return i
+        if len(ids) != 2:
+            raise AnchorMissing("%s: struct literal with inventory and inventory_begin not found" % b.key)
+        inv, beg = origin(ids["inventory"]), origin(ids["inventory_begin"])
+        pushes = [n for n in walk(b.body) if n.get("k") == "MethodCall" and n["name"] == "push" and n["recv"].get("k") == "Path" and n["recv"].get("id") == beg]
+        # the last push (closing sentinel) in source order that is not inside the construction loop
+        pm = {id(n): ps for n, ps in walk_with_parents(b.body)}
+        closing = [n for n in pushes if not any(p.get("k") == "Loop" for p in pm[id(n)])]
+        if not closing:
+            raise AnchorMissing("%s: no closing push onto inventory_begin" % b.key)
+        for n in closing:
+            a = n["args"][0]
+            ok = (a.get("k") == "MethodCall" and a["name"] == "len" and a["recv"].get("k") == "Path" and a["recv"].get("id") == inv) or (a.get("k") == "Lit" and str(a.get("v")) == "0")
+            key = "%s:inventory_begin-sentinel" % short_fn(b.key)
+            if (fkey, show(F, a)) in seen:
+                continue
+            seen.add((fkey, show(F, a)))
+            rr.instances += 1
+            rr.ob(ok, key=key)
+            if not ok:
+                rr.violate(key, "%s closes inventory_begin with `%s`; the entries are indices into the inventory, so the sentinel must be the number of inventory entries (`inventory.len()`): with more than one entry per word a valid index exceeds this value and select looks in the wrong superblock" % (b.key, show(F, a)[:80]), F.loc(n))
